@@ -89,6 +89,13 @@ def dc_cancel(it, recv, meth, args, kwargs, fr):
     return NONE
 
 
+def new_connector(it, cls, args, kwargs):
+    """Connector(...) is a collaborator here (its own machine is C17's business)"""
+    o = VObj("ConnectorB", {})
+    it.ctx.event("bcall", "ConnectorB", "__init__", list(args), dict(kwargs))
+    return o
+
+
 def fire_timer(it, dc):
     """ghost reactor step used by the lemma harnesses: the pending call `dc` becomes due: the clock
     advances to its deadline and its function runs (the real closure given to callLater)"""
@@ -179,6 +186,8 @@ def regf(exclude=()):
     reg.boundary["DelayedCall.delay"] = dc_delay
     reg.boundary["DelayedCall.reset"] = dc_reset
     reg.boundary["DelayedCall.cancel"] = dc_cancel
+    reg.func_models["wormhole/util.py:dict_to_bytes"] = lambda it, args, kwargs, fr: it.fresh("bytes", "json_bytes")
+    reg.ext_models["new:Connector"] = new_connector
     # status reporting is not part of this property (dropped syntax, listed in ASSUMPTIONS)
     reg.drop_calls = list(reg.drop_calls) + ["self._peer_saw_ping", "self._maybe_send_status"]
     sf = reg.spec_funcs
@@ -283,6 +292,16 @@ GHOST = {"conn": "bool", "missed": "int"}
 PINGS = "dict[bytes,tuple[opt[opaque[on_pong]],real]]"
 TIMER_FIELDS = {"_timer": "opt[obj[DelayedCall]]", "_reactor": "obj[Reactor]"}
 
+CONN_FIELDS = dict(TIMER_FIELDS, __state="state", _my_role="none", _ping_interval="real", _traffic="opt[obj[TrafficTimer]]",
+                   _connection="opt[obj[ConnectionB]]", _inbound="obj[InboundB]", _outbound="obj[OutboundB]",
+                   _made_first_connection="bool", _main_channel="obj[ObserverB]", _pings_outstanding=PINGS)
+LOST_FIELDS = dict(TIMER_FIELDS, __state="state", _my_role="none", _traffic="opt[obj[TrafficTimer]]",
+                   _connection="opt[obj[ConnectionB]]", _inbound="obj[InboundB]", _outbound="obj[OutboundB]",
+                   _next_dilation_generation="int", _S="obj[SendB]", _dilation_key="opt[bytes]",
+                   _transit_relay_location="opt[str]", _eventual_queue="obj[EventualQueueB]", _cooperator="obj[CooperatorB]",
+                   _no_listen="bool", _my_side="str", _debug_stall_connector="bool", _stopped="obj[ObserverB]",
+                   _connector="obj[ConnectorB]")
+
 CONTRACTS = [
     # ---------------------------------------------------------------- (a) TrafficTimer
     Contract(f"{TT}.got_connection", props=[PROP], params={}, self_fields=TT_FIELDS, ghost=GHOST, modifies=["__state"],
@@ -314,7 +333,8 @@ CONTRACTS = [
     # ---------------------------------------------------------------- (b) timer arithmetic
     Contract(f"{M}._send_ping_reset_timer", props=[PROP], params={},
              self_fields=dict(TIMER_FIELDS, _ping_interval="real", _pings_outstanding=PINGS, _outbound="obj[OutboundB]"),
-             pre_hook=wire_self, modifies=["_timer", "_pings_outstanding"],
+             pre_hook=wire_self,
+             modifies=["_timer", "_timer.deadline", "_timer.pending", "_reactor.npending", "_pings_outstanding"],
              requires=["self._ping_interval > 0", "timer_ok(self)"],
              raises={"AssertionError": None},
              ensures=[("exactly-one-timer-pending", "self._timer is not None and self._timer.pending and "
@@ -328,6 +348,7 @@ CONTRACTS = [
              replay={"driver": "c16_replay:send_ping_reset_timer"},
              note="AssertionError: os.urandom(4) collided with an outstanding ping id (send_ping's duplicate check)"),
     Contract(f"{M}._signal_reconnect", props=[PROP], params={}, self_fields={"_connection": "opt[obj[ConnectionB]]"},
+             inline=True,
              ensures=[("drops-the-connection", "implies(self._connection is not None, bcalls('disconnect') == 1 and "
                                                "len(bcall_names()) == 1)"),
                       ("nothing-without-connection", "implies(self._connection is None, len(bcall_names()) == 0)")]),
@@ -397,9 +418,11 @@ CONTRACTS = [
                                                       "self._pings_outstanding[k] == old(self._pings_outstanding)[k]), 'bytes')")],
              effects=[("send_if_connected", ["Ping(ping_id)"])]),
     Contract(f"{M}.handle_pong", props=[PROP], params={"ping_id": "bytes"},
-             self_fields={"_pings_outstanding": PINGS, "_reactor": "obj[Reactor]"}, modifies=["_pings_outstanding"],
+             self_fields={"_pings_outstanding": PINGS, "_reactor": "obj[Reactor]", "_traffic": "opt[obj[TrafficTimer]]"},
+             modifies=["_pings_outstanding"],
              ensures=[("unknown-id-is-not-traffic",
                        "implies(ping_id not in old(self._pings_outstanding), len(bcall_names()) == 0 and "
+                       "input_calls('traffic_seen') == 0 and "
                        "forall(lambda k: (k in self._pings_outstanding) == (k in old(self._pings_outstanding)), 'bytes'))"),
                       ("outstanding-id-runs-its-callback-once",
                        "implies(ping_id in old(self._pings_outstanding) and old(self._pings_outstanding)[ping_id][0] is not None, "
@@ -412,6 +435,68 @@ CONTRACTS = [
                       ("others-kept", "forall(lambda k: implies(k != ping_id, (k in self._pings_outstanding) == "
                                       "(k in old(self._pings_outstanding))), 'bytes')")],
              note="a second pong for the same id finds it retired: counted once"),
+    Contract(f"{M}.connector_connection_made", props=[PROP], params={"c": "obj[ConnectionB]"},
+             self_fields=dict(CONN_FIELDS), pre_hook=role_hook,
+             modifies=["__state", "_traffic", "_timer", "_connection", "_made_first_connection", "_pings_outstanding"],
+             requires=["in_state(self, 'CONNECTING')", "self._ping_interval > 0", "no_timer(self)", "self._connection is None",
+                       "implies(self._traffic is not None, in_state(self._traffic, 'no_connection'))"],
+             raises={"AssertionError": None},
+             ensures=[("leader-starts-monitoring",
+                       "implies(self._my_role is LEADER, self._traffic is not None and in_state(self._traffic, 'connected') "
+                       "and self._timer is not None and self._timer.pending and self._reactor.npending == 1 and "
+                       "self._timer.deadline == self._reactor.now + self._ping_interval and "
+                       "n_calls('_send_ping_reset_timer') == 1)"),
+                      ("follower-does-not-monitor",
+                       "implies(self._my_role is not LEADER, no_timer(self) and n_calls('_send_ping_reset_timer') == 0 and "
+                       "input_calls('got_connection') == 0 and (self._traffic is None) == (old(self._traffic) is None))"),
+                      ("connection-in-use", "self._connection is c and in_state(self, 'CONNECTED')"),
+                      ("traffic-timer-calls-back-into-this-manager", "wired(self)")],
+             note="CONNECTING is the only state with a connection_made row; no connection / no timer / TrafficTimer idle "
+                  "there is the Manager invariant re-established by connector_connection_lost and stop below"),
+    Contract(f"{M}.connector_connection_lost", props=[PROP], params={}, self_fields=dict(LOST_FIELDS), pre_hook=role_hook,
+             modifies=["__state", "_timer", "_connection", "_next_dilation_generation", "_connector"],
+             requires=["timer_ok(self)", "self._connection is not None", "self._my_role is not None",
+                       "implies(self._traffic is not None, in_state(self._traffic, 'connected', 'idle_traffic'))",
+                       "implies(self._my_role is LEADER, in_state(self, 'CONNECTED', 'STOPPING'))",
+                       "implies(self._my_role is not LEADER, in_state(self, 'CONNECTED', 'ABANDONING', 'STOPPING'))",
+                       "not self._debug_stall_connector"],
+             raises={"AssertionError": "self._dilation_key is None"},
+             ensures=[("monitoring-stops", "no_timer(self) and implies(self._traffic is not None, "
+                                           "in_state(self._traffic, 'no_connection'))"),
+                      ("pending-timer-cancelled", "bcalls('cancel') == ite(old(self._timer) is None, 0, 1)"),
+                      ("never-signals-reconnect", "bcalls('disconnect') == 0"),
+                      ("connection-forgotten", "self._connection is None"),
+                      ("left-the-connected-states", "in_state(self, 'FLUSHING', 'LONELY', 'CONNECTING', 'STOPPED')")],
+             note="a row exists for connection_lost_leader in CONNECTED/STOPPING and for connection_lost_follower in "
+                  "CONNECTED/ABANDONING/STOPPING (ABANDONING is only entered by a Follower, on the Leader's RECONNECT)"),
+    Contract(f"{M}._stop_using_connection", props=[PROP], params={},
+             self_fields=dict(TIMER_FIELDS, _connection="opt[obj[ConnectionB]]", _inbound="obj[InboundB]",
+                              _outbound="obj[OutboundB]"),
+             pre_hook=wire_self, modifies=["_timer", "_connection"], requires=["timer_ok(self)"], inline=True,
+             ensures=[("no-timer-left", "no_timer(self)"),
+                      ("pending-timer-cancelled", "bcalls('cancel') == ite(old(self._timer) is None, 0, 1)"),
+                      ("connection-forgotten", "self._connection is None and bcalls('stop_using_connection') == 2")]),
+    Contract(f"{M}.abandon_connection", props=[PROP], params={},
+             self_fields=dict(TIMER_FIELDS, _connection="opt[obj[ConnectionB]]"),
+             pre_hook=wire_self, modifies=["_timer"], requires=["timer_ok(self)", "self._connection is not None"],
+             inline=True,
+             ensures=[("no-timer-left", "no_timer(self)"),
+                      ("pending-timer-cancelled", "bcalls('cancel') == ite(old(self._timer) is None, 0, 1)"),
+                      ("disconnect-requested", "bcalls('disconnect') == 1")]),
+    Contract(f"{M}.stop", props=[PROP], params={},
+             self_fields=dict(TIMER_FIELDS, __state="state", _connection="opt[obj[ConnectionB]]",
+                              _connector="obj[ConnectorB]", _stopped="obj[ObserverB]"),
+             pre_hook=wire_self, modifies=["__state", "_timer"],
+             requires=["not in_state(self, 'STOPPING', 'STOPPED')", "timer_ok(self)",
+                       "implies(in_state(self, 'WAITING', 'WANTING', 'CONNECTING', 'FLUSHING', 'LONELY'), "
+                       "no_timer(self) and self._connection is None)",
+                       "implies(in_state(self, 'ABANDONING'), no_timer(self))",
+                       "implies(in_state(self, 'CONNECTED', 'ABANDONING'), self._connection is not None)"],
+             ensures=[("no-timer-pending-after-stop", "no_timer(self)"),
+                      ("still-no-connection-when-stopped", "implies(in_state(self, 'STOPPED'), self._connection is None)")],
+             note="stop() is delivered once (Terminator enters S_stoppingD once), so never in STOPPING/STOPPED; "
+                  "ABANDONING is a Follower state (entered on the Leader's RECONNECT) and a Follower never arms a timer "
+                  "(connector_connection_made.follower-does-not-monitor), hence the ABANDONING precondition"),
 ]
 
 
